@@ -27,9 +27,12 @@ EXPLANATION = (
     'the two dispatching pairs are modelled one by one (Model/Quality.lean) and bit-compared with the C (static ones by '
     'white-box inclusion of ref_node.c) on random/adversarial cells with four different SPD vertex metrics, every even '
     'vertex permutation, both selectors. Proved: the quality returned by every dquality routine equals the plain quality '
-    '(status included, all selector values); sum of e^T M e is an exact quadratic in node 0 with the coded d_l2 as linear '
-    'term; on the smooth branch the jac tet quality is 36/3^(1/3) (sqrt(det M) vol)^(2/3) / sum e^T M e and the coded '
-    'gradient is its derivative (Mathlib HasDerivAt along every line through node 0); the epic tet quality is invariant '
+    '(status included, all selector values); for the jac tet and the jac triangle: sum e^T M e, n.n and sum |e|^2 are exact '
+    'quadratics in node 0 with the coded d_l2 / 2 n.dn / dl2 as linear terms, the volume is affine, and the gradient '
+    'returned by the C IS the derivative of the model function of the plain quality (Mathlib HasDerivAt of '
+    't -> quality(x0 + t delta) at 0, for every direction, on the smooth branch; the branch conditions are open); for '
+    'the epic tet the power/sum-of-squares/quotient combination is the formal derivative given the edge-length '
+    'gradients (_partial); epic and jac tet quality and epic and jac triangle quality are invariant '
     'under the 3-cycles (0 1 2) and (1 2 3), hence under all even permutations. Oracle: dquality value == plain value, '
     'derivative vs central difference of the plain quality, even-permutation invariance, an independent pure-Python '
     'reference value (quality one on the metric-regular simplex, q <= 1 for jac, sign vs min_volume).')
@@ -38,9 +41,9 @@ ASSUMPTIONS = [
     'exact real arithmetic',
     'quality in (0,1], quality = 1 on the metric-regular simplex and affine invariance (jac/epic quality: exp_m, log_m, '
     'pow 2/3) are NOT proved (oracle only: independent reference value on every generated case); they are tied (stream quality)',
-    'derivative exactness is proved for the jac tet path only; for the epic paths and the triangle paths the derivative is '
-    'tied bit for bit and checked against finite differences, not proved (the edge-length derivative ref_node_dratio_dnode0 '
-    'is a log-mean with branches); even-permutation invariance is proved for the epic tet only (jac: oracle)',
+    'derivative exactness is proved for the jac tet and jac triangle paths; for the epic tet only the combination is proved '
+    '(given the edge-length gradients), for the epic triangle nothing: there the derivative is tied bit for bit and checked '
+    'against finite differences (the edge-length derivative ref_node_dratio_dnode0 is a log-mean with branches, not proved)',
     'ref_node->ratio_method is REF_NODE_RATIO_GEOMETRIC in the quality model and stream (the quadrature variant is not composed '
     'into the quality functions)',
     'ratio_scale is proved for s >= 1 with end-point lengths >= 1e-12: below that cut-off the C returns '
